@@ -123,7 +123,7 @@ def execute(req):
     mols = _build_batch(req)
     params = sp.make_params(req["method"], req.get("solver", "adaptive"), req.get("eps", 1e-6), sp2=req.get("sp2"),
                             force_mode=req.get("force_mode", "autodiff"), uhf=req.get("uhf", False), **req.get("extra", {}))  # fmt: skip
-    spc, xyz, ch, mu = M.batch(mols)
+    spc, xyz, ch, mu = M.batch(mols, pad_extra=int(req.get("pad_extra", 0)))
     for row, j in req.get("swaps", []):  # the sortedness fault: swap atoms j, j+1 of a row (species and coordinates together)
         spc[row, [j, j + 1]] = spc[row, [j + 1, j]]
         xyz[row, [j, j + 1]] = xyz[row, [j + 1, j]]
@@ -281,6 +281,19 @@ def negative_lattice(tier, seed):
                     if spc[j] > spc[j + 1]:
                         reqs.append(_req("sorted", "raise", meth, mols, seed, fault=f"swap row{row} {spc[j]}<->{spc[j + 1]} at {j}",
                                          swaps=[[row, j]], fault_row=row, swap_with_padding=spc[j + 1] == 0))  # fmt: skip
+        # --- F1' the same in over-padded arrays (every molecule shorter than the array: the widest row has padding too), where a
+        # swap with the first padding slot puts a real atom BEHIND the columns any molecule of the batch fills
+        for base in [["H2O"], ["H2O", "HF"]] if quick else [["H2O"], ["H2O", "HF"], ["H2CO"], ["HF", "NH3"]]:
+            mols = [{"name": n} for n in base]
+            for extra in (1, 2):
+                reqs.append(_req("sorted", "accept", meth, mols, seed, fault=f"none(base,pad+{extra})", pad_extra=extra))
+                width = max(len(M.MOLS[n]["species"]) for n in base) + extra
+                for row, n in enumerate(base):
+                    spc = list(M.MOLS[n]["species"]) + [0] * (width - len(M.MOLS[n]["species"]))
+                    for j in range(width - 1):
+                        if spc[j] > spc[j + 1]:
+                            reqs.append(_req("sorted", "raise", meth, mols, seed, fault=f"swap row{row} {spc[j]}<->{spc[j + 1]} at {j} (pad+{extra})",
+                                             swaps=[[row, j]], fault_row=row, swap_with_padding=spc[j + 1] == 0, pad_extra=extra))  # fmt: skip
         # --- F2 odd electron count under RHF, any row
         for n in ["H2O", "CH4", "H2CO", "NH3", "HF", "OH-", "NH4+"] if not quick else ["H2O", "H2CO", "OH-", "NH4+"]:
             c0 = M.MOLS[n]["charge"]
